@@ -168,6 +168,7 @@ inductive GKind
   | readArgsArray (r : Nat) (args : List GArg)  -- `read_with_args(range, &args).unwrap()` : ComputedArray
   | readArgsStruct (r : Nat) (args : List GArg) -- `read_with_args(range, &args).unwrap()` : a record
   | varLen                                      -- `VarLenArray::read(self.data.split_off(range.start).unwrap()).unwrap()`
+  | varLenSlice                                 -- `VarLenArray::read(self.data.slice(range).unwrap()).unwrap()`
   | rangeOnly                                   -- only the range fn is evaluated (`min_byte_range`)
   deriving DecidableEq, Repr
 
@@ -459,6 +460,7 @@ def getterOk (ext : Ext) (s : Shape) (d : Data) (m : Marker) (g : Getter) : Prop
       a ≤ b ∧ b ≤ d.len ∧
         ∃ vs, gargVals s d m args = some vs ∧ ext.recRead r vs (b - a) = true
     | .varLen => a ≤ d.len
+    | .varLenSlice => a ≤ b ∧ b ≤ d.len
     | .rangeOnly => True
 
 /-! ## well-formedness (decidable, checked per generated table by `decide`) -/
@@ -535,6 +537,11 @@ def getterCompat (args : List Nat) (pre : List FieldP) (k : FKind) : GKind → B
     | .computed _ => true
     | .condComputed _ _ => true
     | _ => false
+  | .varLenSlice =>
+    match k with
+    | .computed _ => true
+    | .condComputed _ _ => true
+    | _ => false
 
 /-- find the getter's field in the program (`pre` = fields already passed, most recent first) -/
 def getterWFAux (args : List Nat) (g : Getter) : List FieldP → List FieldP → Bool
@@ -564,5 +571,24 @@ def WF (s : Shape) : Prop :=
   (s.getters.all (getterWF s) = true)
 
 instance (s : Shape) : Decidable (WF s) := by unfold WF; infer_instance
+
+/-- every reader of a registry is well-formed (assembled by Gen/ReadShapes*.lean from the per-table
+`decide` proofs) -/
+def AllWF (l : List (String × Shape)) : Prop := ∀ p ∈ l, WF p.2
+
+theorem AllWF.nil : AllWF [] := by intro p hp; cases hp
+
+theorem AllWF.cons {n : String} {s : Shape} {l : List (String × Shape)} (h : WF s) (t : AllWF l) :
+    AllWF ((n, s) :: l) := by
+  intro p hp
+  cases hp with
+  | head => exact h
+  | tail _ hp => exact t p hp
+
+theorem AllWF.append {a b : List (String × Shape)} (ha : AllWF a) (hb : AllWF b) : AllWF (a ++ b) := by
+  intro p hp
+  rcases List.mem_append.mp hp with h | h
+  · exact ha p h
+  · exact hb p h
 
 end FontVerif.Shape
